@@ -119,6 +119,11 @@ func serverRaw(p *pki.PKI, r row, probe *fakes.Probe) outcome {
 	if err != nil || cfg == nil {
 		return outcome{detail: fmt.Sprintf("GetServerTLSConfig: %v", err), inconclusive: "could not build the server config"}
 	}
+	return serverRawHandshake(p, cfg, p.Creds[r.Peer])
+}
+
+// one connection of a harness client presenting cred to a raw TLS listener using the proxy's (already built) config
+func serverRawHandshake(p *pki.PKI, cfg *tls.Config, cred *pki.Cred) outcome {
 	ln, err := tls.Listen("tcp", "127.0.0.1:0", cfg)
 	if err != nil {
 		return outcome{inconclusive: err.Error()}
@@ -146,7 +151,7 @@ func serverRaw(p *pki.PKI, r row, probe *fakes.Probe) outcome {
 		return outcome{inconclusive: err.Error()}
 	}
 	defer raw.Close()
-	c := tls.Client(raw, clientTLS(p, p.Creds[r.Peer]))
+	c := tls.Client(raw, clientTLS(p, cred))
 	c.SetDeadline(time.Now().Add(watchdog))
 	var cliRes string
 	if _, err := c.Write([]byte("ping")); err != nil {
@@ -180,7 +185,11 @@ func clientRaw(p *pki.PKI, r row, probe *fakes.Probe) outcome {
 	if err != nil || cfg == nil {
 		return outcome{detail: fmt.Sprintf("GetClientTLSConfig: %v", err), inconclusive: "could not build the client config"}
 	}
-	peer := p.Creds[r.Peer]
+	return clientRawHandshake(cfg, p.Creds[r.Peer])
+}
+
+// one connection of the proxy's (already built) client config to a harness TLS server presenting peer
+func clientRawHandshake(cfg *tls.Config, peer *pki.Cred) outcome {
 	scfg := &tls.Config{Certificates: []tls.Certificate{*peer.TLSCert}, MinVersion: tls.VersionTLS12}
 	ln, err := tls.Listen("tcp", "127.0.0.1:0", scfg)
 	if err != nil {
@@ -473,5 +482,77 @@ func TestMatrix(t *testing.T) {
 			l.Sample = map[string]any{"row": r, "expected_accept": want, "observed": o.detail}
 		}
 		out.End(l)
+	}
+	// Validity is judged when the peer connects, not when the configuration was built: the proxy's TLS configuration
+	// is built FIRST; a CA1 leaf issued afterwards (a) expires / (b) becomes valid about 3 s later. The same
+	// configuration object then sees the peer before and after that instant (raw embedding, both roles).
+	idx := len(rows)
+	for _, role := range []string{"server", "client"} {
+		for _, kind := range []string{"expires-while-running-ca1", "becomes-valid-while-running-ca1"} {
+			r := row{Role: role, Embedding: "raw", Peer: kind, Verify: true, OwnCert: true}
+			name := r.name()
+			idx++
+			if !rec.Want(idx, name) {
+				continue
+			}
+			out.Begin(name, r)
+			l := rec.Line{Case: name, Class: name, Counts: map[string]int64{}}
+			var scfg, ccfg *tls.Config
+			var err error
+			if role == "server" {
+				scfg, err = encryption.GetServerTLSConfig(proxyTLSConfig(p, r, p.Creds["valid-ca1-second"]), probe)
+			} else {
+				ccfg, err = encryption.GetClientTLSConfig(proxyTLSConfig(p, r, p.Creds["valid-ca1-second"]))
+			}
+			if err != nil || (scfg == nil && ccfg == nil) {
+				l.Verdict, l.Why = rec.Inconclusive, fmt.Sprintf("could not build the configuration: %v", err)
+				out.End(l)
+				continue
+			}
+			edge := time.Now().Truncate(time.Second).Add(4 * time.Second)
+			var cred *pki.Cred
+			if kind == "expires-while-running-ca1" {
+				cred = p.IssueCA1(kind+"-"+role, time.Now().Add(-time.Hour), edge)
+			} else {
+				cred = p.IssueCA1(kind+"-"+role, edge, edge.Add(time.Hour))
+			}
+			shake := func() outcome {
+				l.Counts["handshakes"]++
+				if role == "server" {
+					return serverRawHandshake(p, scfg, cred)
+				}
+				return clientRawHandshake(ccfg, cred)
+			}
+			wantBefore := kind == "expires-while-running-ca1"
+			var phases []string
+			judge := func(phase string, o outcome, want bool) {
+				phases = append(phases, fmt.Sprintf("%s: accepted=%v (%s)", phase, o.accepted, o.detail))
+				switch {
+				case o.inconclusive != "" && !(o.accepted && !want):
+					l.Verdict, l.Why = rec.Inconclusive, phase+": "+o.inconclusive+" ("+o.detail+")"
+				case o.accepted && !want:
+					l.Viol = append(l.Viol, rec.Violation{Prop: "C19", Sig: fmt.Sprintf("admitted:%s:raw:peer=%s:%s", role, kind, phase),
+						What: fmt.Sprintf("proxy as %s (raw), configuration built before the certificate was issued: completed a connection with a peer whose CA1 certificate is outside its validity period at connection time (%s; validity edge %s, now %s). %s", role, phase, edge.Format(time.RFC3339), time.Now().Format(time.RFC3339Nano), o.detail), Witness: r})
+				case !o.accepted && want:
+					l.Viol = append(l.Viol, rec.Violation{Prop: "C19", Sig: fmt.Sprintf("refused-valid:%s:raw:peer=%s:%s", role, kind, phase),
+						What: fmt.Sprintf("proxy as %s (raw), configuration built before the certificate was issued: refused a peer whose CA1 certificate is within its validity period at connection time (%s; validity edge %s, now %s). %s", role, phase, edge.Format(time.RFC3339), time.Now().Format(time.RFC3339Nano), o.detail), Witness: r})
+				case o.accepted:
+					l.Counts["admitted"]++
+				default:
+					l.Counts["refused"]++
+				}
+			}
+			if time.Until(edge) > 1500*time.Millisecond {
+				o := shake()
+				if time.Until(edge) > 200*time.Millisecond { // finished well before the edge: the verdict is unambiguous
+					judge("before-edge", o, wantBefore)
+				}
+			}
+			time.Sleep(time.Until(edge) + 1500*time.Millisecond)
+			judge("after-edge", shake(), !wantBefore)
+			l.Counts["validity_edge_rows"] = 1
+			l.Sample = map[string]any{"row": r, "phases": phases}
+			out.End(l)
+		}
 	}
 }
